@@ -271,6 +271,70 @@ def inlineP (ind : Str) (depth : Nat) : List (Str × JVal) → Str
       (valueP ind (depth + 1) true x ++ (fieldSep xs ++ inlineP ind depth xs))
 end
 
+/-! ### the value as the writer spells it: integer tokens of magnitude ≥ 2^63 as floats -/
+
+mutual
+/-- every number token `t` replaced by `tomlNum t` (`t ++ ".0"` for an integer
+    literal of magnitude ≥ 2^63, else `t`): the same numbers, in the spelling the
+    TOML text uses -/
+def numsV : JVal → JVal
+  | .null => .null
+  | .bool b => .bool b
+  | .num t => .num (tomlNum t)
+  | .str s => .str s
+  | .arr xs => .arr (numsL xs)
+  | .obj fs => .obj (numsF fs)
+def numsL : List JVal → List JVal
+  | [] => []
+  | x :: xs => numsV x :: numsL xs
+def numsF : List (Str × JVal) → List (Str × JVal)
+  | [] => []
+  | (k, x) :: xs => (k, numsV x) :: numsF xs
+end
+
+theorem isObj_numsV (v : JVal) : isObj (numsV v) = isObj v := by
+  cases v <;> simp [numsV, isObj]
+
+theorem all_isObj_numsL : (xs : List JVal) → (numsL xs).all isObj = xs.all isObj
+  | [] => by simp [numsL]
+  | x :: xs => by simp [numsL, isObj_numsV, all_isObj_numsL xs]
+
+theorem numsL_isEmpty (xs : List JVal) : (numsL xs).isEmpty = xs.isEmpty := by
+  cases xs <;> simp [numsL]
+
+theorem numsF_isEmpty (fs : List (Str × JVal)) : (numsF fs).isEmpty = fs.isEmpty := by
+  cases fs with
+  | nil => simp [numsF]
+  | cons kx xs => obtain ⟨k, x⟩ := kx; simp [numsF]
+
+theorem isSubTable_numsV (v : JVal) : isSubTable (numsV v) = isSubTable v := by
+  cases v <;> simp [numsV, isSubTable, all_isObj_numsL, numsL_isEmpty]
+
+theorem anySub_numsF : (fs : List (Str × JVal)) → anySub (numsF fs) = anySub fs
+  | [] => by simp [numsF]
+  | (k, x) :: xs => by
+    have := anySub_numsF xs
+    simp only [anySub] at this ⊢
+    simp [numsF, isSubTable_numsV, this]
+
+theorem anyPlain_numsF : (fs : List (Str × JVal)) → anyPlain (numsF fs) = anyPlain fs
+  | [] => by simp [numsF]
+  | (k, x) :: xs => by
+    have := anyPlain_numsF xs
+    simp only [anyPlain] at this ⊢
+    simp [numsF, isSubTable_numsV, this]
+
+theorem itemSep_numsL (sg : Bool) (xs : List JVal) : itemSep sg (numsL xs) = itemSep sg xs := by
+  cases xs <;> simp [numsL, itemSep]
+
+theorem nlAfter_numsL (xs : List JVal) : nlAfter (numsL xs) = nlAfter xs := by
+  cases xs <;> simp [numsL, nlAfter]
+
+theorem fieldSep_numsF (fs : List (Str × JVal)) : fieldSep (numsF fs) = fieldSep fs := by
+  cases fs with
+  | nil => simp [numsF]
+  | cons kx xs => obtain ⟨k, x⟩ := kx; simp [numsF, fieldSep]
+
 theorem pre_ok (s x : Str) : pre s (.ok x) = .ok (s ++ x) := rfl
 theorem cat_ok (x y : Str) : cat (.ok x) (.ok y) = .ok (x ++ y) := rfl
 theorem post_ok (x s : Str) : post (.ok x) s = .ok (x ++ s) := rfl
@@ -291,7 +355,7 @@ theorem outcome_cat (n m : Bool) (t u : Str) : cat (outcome n t) (outcome m u) =
 
 mutual
 theorem tomlValue_outcome (ind : Str) (d : Nat) (sg : Bool) :
-    (v : JVal) → tomlValue ind d sg v = outcome (hasNull v) (valueP ind d sg v)
+    (v : JVal) → tomlValue ind d sg v = outcome (hasNull v) (valueP ind d sg (numsV v))
   | .null => rfl
   | .bool true => rfl
   | .bool false => rfl
@@ -300,26 +364,26 @@ theorem tomlValue_outcome (ind : Str) (d : Nat) (sg : Bool) :
   | .arr [] => rfl
   | .arr (x :: xs) => by
     have h := tomlItems_outcome ind d sg (x :: xs)
-    rw [tomlValue, h, valueP, hasNull]
+    rw [tomlValue, h, numsV, numsL, valueP, hasNull]
     cases sg
     · simp only [Bool.false_eq_true, if_false, outcome_post, outcome_pre]
     · simp only [if_true, outcome_post, outcome_pre]
   | .obj [] => rfl
-  | .obj (kx :: xs) => by
-    have h := tomlInline_outcome ind d (kx :: xs)
-    rw [tomlValue, h, valueP, hasNull, outcome_post, outcome_pre]
+  | .obj ((k, x) :: xs) => by
+    have h := tomlInline_outcome ind d ((k, x) :: xs)
+    rw [tomlValue, h, numsV, numsF, valueP, hasNull, outcome_post, outcome_pre]
 theorem tomlItems_outcome (ind : Str) (d : Nat) (sg : Bool) :
-    (l : List JVal) → tomlItems ind d sg l = outcome (hasNullL l) (itemsP ind d sg l)
+    (l : List JVal) → tomlItems ind d sg l = outcome (hasNullL l) (itemsP ind d sg (numsL l))
   | [] => rfl
   | x :: xs => by
     rw [tomlItems, tomlValue_outcome ind (d + 1) true x, tomlItems_outcome ind d sg xs,
-      outcome_pre, outcome_cat, outcome_pre, itemsP, hasNullL]
+      outcome_pre, outcome_cat, outcome_pre, numsL, itemsP, hasNullL, itemSep_numsL]
 theorem tomlInline_outcome (ind : Str) (d : Nat) :
-    (l : List (Str × JVal)) → tomlInline ind d l = outcome (hasNullF l) (inlineP ind d l)
+    (l : List (Str × JVal)) → tomlInline ind d l = outcome (hasNullF l) (inlineP ind d (numsF l))
   | [] => rfl
   | (k, x) :: xs => by
     rw [tomlInline, tomlValue_outcome ind (d + 1) true x, tomlInline_outcome ind d xs,
-      outcome_pre, outcome_cat, outcome_pre, inlineP, hasNullF]
+      outcome_pre, outcome_cat, outcome_pre, numsF, inlineP, hasNullF, fieldSep_numsF]
 end
 
 /-! ### tables -/
@@ -339,13 +403,14 @@ def plainNull : List (Str × JVal) → Bool
   | (_, v) :: rest => if isSubTable v then plainNull rest else hasNull v || plainNull rest
 
 theorem tomlPlain_outcome (ind : Str) (path : List Str) :
-    (fs : List (Str × JVal)) → tomlPlain ind path fs = outcome (plainNull fs) (plainP ind path fs)
+    (fs : List (Str × JVal)) → tomlPlain ind path fs = outcome (plainNull fs) (plainP ind path (numsF fs))
   | [] => rfl
   | (k, v) :: rest => by
-    rw [tomlPlain, plainP, plainNull]
+    rw [tomlPlain, numsF, plainP, plainNull, isSubTable_numsV]
     cases isSubTable v
     · simp only [Bool.false_eq_true, if_false]
-      rw [tomlValue_outcome, tomlPlain_outcome ind path rest, outcome_pre, outcome_cat, outcome_pre]
+      rw [tomlValue_outcome, tomlPlain_outcome ind path rest, outcome_pre, outcome_cat, outcome_pre,
+        anyPlain_numsF]
     · simp only [if_true]
       exact tomlPlain_outcome ind path rest
 
@@ -356,6 +421,11 @@ theorem tableOf_outcome (hh : Bool) (fs : List (Str × JVal)) (n m : Bool) (p s 
     tableOf hh fs (outcome n p) (outcome m s) = outcome (n || m) (tableTextP hh fs p s) := by
   unfold tableOf tableTextP
   rw [outcome_pre, outcome_cat, outcome_pre]
+
+theorem tableTextP_nums (hh : Bool) (fs : List (Str × JVal)) (p q : Str) :
+    tableTextP hh (numsF fs) p q = tableTextP hh fs p q := by
+  unfold tableTextP
+  rw [numsF_isEmpty, anySub_numsF]
 
 mutual
 /-- text of the sub-table loop -/
@@ -408,41 +478,45 @@ theorem isSubTable_arr {items : List JVal} (h : isSubTable (.arr items) = true) 
 
 mutual
 theorem tomlSubs_outcome (ind : Str) (path : List Str) :
-    (fs : List (Str × JVal)) → tomlSubs ind path fs = outcome (subsNull fs) (subsP ind path fs)
-  | [] => by simp only [tomlSubs, subsP, subsNull]; rfl
+    (fs : List (Str × JVal)) → tomlSubs ind path fs = outcome (subsNull fs) (subsP ind path (numsF fs))
+  | [] => by simp only [tomlSubs, numsF, subsP, subsNull]; rfl
   | (k, .obj sub) :: rest => by
-    rw [tomlSubs, subsP, subsNull]
+    rw [tomlSubs, numsF, numsV, subsP, subsNull]
     simp only [isSubTable, if_true, tomlSubField]
     rw [tomlSubs_outcome ind path rest, outcome_pre, tomlPlain_outcome, tomlSubs_outcome ind (path ++ [k]) sub,
-      tableOf_outcome, outcome_pre, outcome_cat]
+      tableOf_outcome, outcome_pre, outcome_cat, anySub_numsF, tableTextP_nums]
   | (k, .arr items) :: rest => by
-    rw [tomlSubs, subsP, subsNull]
+    rw [tomlSubs, numsF, numsV, subsP, subsNull]
+    have hst : isSubTable (.arr (numsL items)) = isSubTable (.arr items) := by
+      have := isSubTable_numsV (.arr items); rwa [numsV] at this
+    rw [hst]
     cases hs : isSubTable (.arr items)
     · simp only [Bool.false_eq_true, if_false]
       exact tomlSubs_outcome ind path rest
     · simp only [if_true, tomlSubField]
       rw [tomlSubs_outcome ind path rest, outcome_pre,
-        tomlArrTables_outcome ind path k items (isSubTable_arr hs), outcome_cat]
+        tomlArrTables_outcome ind path k items (isSubTable_arr hs), outcome_cat, anySub_numsF]
   | (k, .null) :: rest => by
-    simp only [tomlSubs, subsP, subsNull, isSubTable, Bool.false_eq_true, if_false]
+    simp only [tomlSubs, numsF, numsV, subsP, subsNull, isSubTable, Bool.false_eq_true, if_false]
     exact tomlSubs_outcome ind path rest
   | (k, .bool _) :: rest => by
-    simp only [tomlSubs, subsP, subsNull, isSubTable, Bool.false_eq_true, if_false]
+    simp only [tomlSubs, numsF, numsV, subsP, subsNull, isSubTable, Bool.false_eq_true, if_false]
     exact tomlSubs_outcome ind path rest
   | (k, .num _) :: rest => by
-    simp only [tomlSubs, subsP, subsNull, isSubTable, Bool.false_eq_true, if_false]
+    simp only [tomlSubs, numsF, numsV, subsP, subsNull, isSubTable, Bool.false_eq_true, if_false]
     exact tomlSubs_outcome ind path rest
   | (k, .str _) :: rest => by
-    simp only [tomlSubs, subsP, subsNull, isSubTable, Bool.false_eq_true, if_false]
+    simp only [tomlSubs, numsF, numsV, subsP, subsNull, isSubTable, Bool.false_eq_true, if_false]
     exact tomlSubs_outcome ind path rest
 theorem tomlArrTables_outcome (ind : Str) (path : List Str) (k : Str) :
     (items : List JVal) → items.all isObj = true →
-      tomlArrTables ind path k items = outcome (arrNull items) (arrTablesP ind path k items)
-  | [], _ => by simp only [tomlArrTables, arrTablesP, arrNull]; rfl
+      tomlArrTables ind path k items = outcome (arrNull items) (arrTablesP ind path k (numsL items))
+  | [], _ => by simp only [tomlArrTables, numsL, arrTablesP, arrNull]; rfl
   | .obj sub :: rest, h => by
     have hr : rest.all isObj = true := (all_isObj_cons h).2
-    rw [tomlArrTables, tomlArrItem, arrTablesP, arrNull, tomlPlain_outcome, tomlSubs_outcome ind (path ++ [k]) sub,
-      tableOf_outcome, tomlArrTables_outcome ind path k rest hr, outcome_pre, outcome_cat, outcome_pre]
+    rw [tomlArrTables, tomlArrItem, numsL, numsV, arrTablesP, arrNull, tomlPlain_outcome,
+      tomlSubs_outcome ind (path ++ [k]) sub, tableOf_outcome, tomlArrTables_outcome ind path k rest hr,
+      outcome_pre, outcome_cat, outcome_pre, nlAfter_numsL, tableTextP_nums]
   | .null :: _, h => absurd (all_isObj_cons h).1 (by simp)
   | .bool _ :: _, h => absurd (all_isObj_cons h).1 (by simp)
   | .num _ :: _, h => absurd (all_isObj_cons h).1 (by simp)
@@ -455,9 +529,9 @@ def tableP (ind : Str) (hasHeader : Bool) (path : List Str) (fs : List (Str × J
   tableTextP hasHeader fs (plainP ind path fs) (subsP ind path fs)
 
 theorem tomlTable_outcome (ind : Str) (hh : Bool) (path : List Str) (fs : List (Str × JVal)) :
-    tomlTable ind hh path fs = outcome (plainNull fs || subsNull fs) (tableP ind hh path fs) := by
+    tomlTable ind hh path fs = outcome (plainNull fs || subsNull fs) (tableP ind hh path (numsF fs)) := by
   unfold tomlTable tableP
-  rw [tomlPlain_outcome, tomlSubs_outcome, tableOf_outcome]
+  rw [tomlPlain_outcome, tomlSubs_outcome, tableOf_outcome, tableTextP_nums]
 
 /-! ### the loops together see every field: `plainNull || subsNull = hasNullF` -/
 
@@ -502,9 +576,10 @@ theorem arrNull_eq : (items : List JVal) → items.all isObj = true → arrNull 
 end
 
 /-- **Outcome of `std.manifestTomlEx`**: `notObject` for a non-object, `nullValue`
-    for an object containing `null` anywhere, else the text `tableP ind false [] fs`. -/
+    for an object containing `null` anywhere, else the text `tableP ind false []`
+    of the fields with the numbers as the writer spells them (`numsF`). -/
 theorem manifestTomlEx_obj (ind : Str) (fs : List (Str × JVal)) :
-    manifestTomlEx ind (.obj fs) = outcome (hasNullF fs) (tableP ind false [] fs) := by
+    manifestTomlEx ind (.obj fs) = outcome (hasNullF fs) (tableP ind false [] (numsF fs)) := by
   rw [manifestTomlEx, tomlTable_outcome, tableNull_eq]
 
 theorem manifestTomlEx_ne_unreachable (ind : Str) (v : JVal) :
